@@ -97,7 +97,14 @@ func checkReadyPlumbing(c *Ctx) {
 					n++
 					c.sites++
 					name := fnName(f)
-					c.check((name == "controller.run" || name == "filterSubscription.run") && kind == "call", "T-WHO(close-readych)", "readych/closed-in/"+name, c.P.instrPos(in), "", "a ready channel is closed in "+name+": only controller.run (after the first successful sync) and filterSubscription.run (per its table) may signal readiness")
+					owner := ""
+					switch {
+					case c.P.ownedBy(f, "", "controller.run"):
+						owner = "controller.run"
+					case c.P.ownedBy(f, "", "filterSubscription.run"):
+						owner = "filterSubscription.run"
+					}
+					c.check(owner != "" && kind == "call", "T-WHO(close-readych)", "readych/closed-in/"+owner+name[:0], c.P.instrPos(in), "", "a ready channel is closed in "+name+": only controller.run (after the first successful sync) and filterSubscription.run (per its table) may signal readiness")
 				}
 			}
 		}
@@ -142,6 +149,10 @@ func checkAtomicHandlers(c *Ctx) {
 						continue
 					}
 					if g := x.Call.StaticCallee(); g != nil && (allowedCalls[fnName(g)] || pureStatic[fnName(g)] != "") {
+						continue
+					}
+					// a private helper of the cache goroutine that itself runs to completion
+					if g := x.Call.StaticCallee(); g != nil && c.P.ownedBy(g, "", "_cache.run") && helperRunsToCompletion(g, 0) {
 						continue
 					}
 					bad = "call of " + valPath(x.Call.Value)
@@ -485,4 +496,49 @@ func checkRootForwarders(c *Ctx) {
 			c.check(ok, rule, f[0]+"/returns-own-lc."+f[1], c.P.fnPos(fn), "", f[0]+" does not return its own lifecycle's "+f[1]+"()")
 		}
 	}
+}
+
+// helperRunsToCompletion: no channel operation, goroutine or interface call
+// other than the trusted accessors / Accept, transitively through same-package helpers.
+func helperRunsToCompletion(g *ssa.Function, depth int) bool {
+	if depth > 3 || g.Blocks == nil {
+		return false
+	}
+	for _, b := range g.Blocks {
+		for _, in := range b.Instrs {
+			switch x := in.(type) {
+			case *ssa.Select, *ssa.Send, *ssa.Go:
+				return false
+			case *ssa.UnOp:
+				if x.Op == token.ARROW {
+					return false
+				}
+			case *ssa.Call:
+				if isLogCall(&x.Call) {
+					continue
+				}
+				if _, isB := x.Call.Value.(*ssa.Builtin); isB {
+					continue
+				}
+				if x.Call.IsInvoke() {
+					m := x.Call.Method.Name()
+					if pureInvoke[m] != "" || m == "Accept" {
+						continue
+					}
+					return false
+				}
+				h := x.Call.StaticCallee()
+				if h == nil {
+					return false
+				}
+				if pureStatic[fnName(h)] != "" {
+					continue
+				}
+				if h.Pkg != g.Pkg || !helperRunsToCompletion(h, depth+1) {
+					return false
+				}
+			}
+		}
+	}
+	return true
 }
